@@ -170,6 +170,11 @@ def _static_facts(work):
             table = it["symbolTable"]
     mutable = {}
     nfuncs = 0
+    agg_locals = {}   # symbol -> (function, pretty type)
+    for k, v in table.items():
+        mo_l = re.match(r"^([A-Za-z_][A-Za-z_0-9]*)::(\d+::)+([A-Za-z_][A-Za-z_0-9]*)$", k)
+        if mo_l and not v.get("isStaticLifetime") and v.get("isLvalue") and v.get("type", {}).get("id") in ("array", "struct", "struct_tag", "union", "union_tag"):
+            agg_locals[k] = (mo_l.group(1), v.get("prettyType", ""))
     for k, v in table.items():
         loc = v.get("location", {})
         f = loc.get("file", "") if isinstance(loc, dict) else ""
@@ -191,6 +196,7 @@ def _static_facts(work):
     addr = []        # (function, symbol)
     calls = []       # (function, kind, target)
     extaddr = []     # (function, external function whose address is taken)
+    wiped = set()    # locals passed (by address) to the injected memzero
     for line in gf.splitlines():
         mo = re.match(r"^([A-Za-z_][A-Za-z_0-9$:]*) /\* .* \*/\s*$", line)
         if mo:
@@ -203,6 +209,11 @@ def _static_facts(work):
         if s.startswith("ASSIGN "):
             lhs = s[7:].split(" := ")[0]
             writes.append((cur, lhs))
+        if "polyseed_deps.memzero)(" in s or "polyseed_deps.memzero(" in s:
+            for sym in re.findall(r"address_of\(([A-Za-z_][A-Za-z_0-9:]*)", s):
+                wiped.add(sym)
+        if re.match(r"^(\d+: )?CALL ", s):
+            s = re.sub(r"^\d+: ", "", s)
         if s.startswith("CALL "):
             body = s[5:]
             if " := " in body.split("(")[0] or re.match(r"^[^()]* := ", body):
@@ -219,7 +230,8 @@ def _static_facts(work):
         for ext in ("malloc", "free", "time", "stdlib_time", "calloc", "realloc", "rand", "random", "getrandom", "clock_gettime", "gettimeofday"):
             if "address_of(%s)" % ext in s:
                 extaddr.append((cur, ext))
-    res = dict(mutable=mutable, writes=writes, addr=addr, calls=calls, libfuncs=libfuncs, nfuncs=nfuncs, extaddr=extaddr)
+    res = dict(mutable=mutable, writes=writes, addr=addr, calls=calls, libfuncs=libfuncs, nfuncs=nfuncs, extaddr=extaddr,
+               agg_locals=agg_locals, wiped=wiped)
     _static_cache[work] = res
     return res
 
@@ -296,3 +308,32 @@ def calls_engine(prop, tier, work, name):
              "every direct call in library code targets a library function or one of memcpy/memset/memcmp/bsearch/strcmp/assert; "
              "libc time() only inside stdlib_time; every other external effect goes through a polyseed_deps member (%d call sites)" % n,
              "sample": "call sites scanned: %d" % n}]
+
+
+# ------------------------------------------------------------------------------------------ temporaries (C16)
+NONSECRET_LOCALS = {("polyseed_keygen", "salt"), ("polyseed_crypt", "salt"),          # public domain-separation constants
+                    ("polyseed_lang_check", "norm"), ("polyseed_lang_check", "separator")}  # debug self-test over the constant tables
+SECRET_TYPES = ("polyseed_data", "gf_poly", "polyseed_str", "polyseed_phrase", "polyseed_storage", "uint8_t [32l]", "uint_fast16_t [16l]")
+
+
+@engine("locals")
+def locals_engine(prop, tier, work, name):
+    """every array / struct local of library code is passed to the injected memzero in its own function, except the
+    allow-listed non-secret ones; an unwiped local of a secret-bearing type is a violation, of another type undecided"""
+    sf = _static_facts(work)
+    bad, unk, ok = [], [], []
+    for sym, (fn, pty) in sorted(sf["agg_locals"].items()):
+        nm = sym.rsplit("::", 1)[1]
+        if (fn, nm) in NONSECRET_LOCALS:
+            continue
+        if sym in sf["wiped"]:
+            ok.append(sym)
+        elif pty.startswith(SECRET_TYPES) or pty in SECRET_TYPES:
+            bad.append("%s (%s) in %s" % (nm, pty, fn))
+        else:
+            unk.append("%s (%s) in %s" % (nm, pty, fn))
+    st = "fail" if bad else ("undecided" if unk else "pass")
+    det = ("temporary of a secret-bearing type is never passed to the injected memzero: " + "; ".join(bad)) if bad else (
+        ("new array/struct local that is not wiped and not known to be free of secrets: " + "; ".join(unk)) if unk else
+        "every array/struct local of library code (%d) is wiped through the injected memzero in its own function; allow-listed non-secret locals: salt (keygen, crypt), self-test buffers" % len(ok))
+    return [{"name": "S.locals", "status": st, "evaluated": len(sf["agg_locals"]), "detail": det, "sample": ", ".join(ok[:6])}]
